@@ -104,6 +104,29 @@ fn family_of(f: u8) -> AddressFamily {
     }
 }
 
+/// `Builder::with_addresses` from the address value or - routes 10..=19, IPv4 / IPv6 only - from a pair of socket addresses
+/// (flow label and scope id set: they are not part of the PROXY header and must not leak into it).
+fn with_addr(c: &Case, vc: u8, proto: ppp::v2::Protocol, addr: ppp::v2::Addresses) -> Builder {
+    use std::net::{SocketAddr, SocketAddrV4, SocketAddrV6};
+    if c.route >= 10 {
+        let scope = 1 + (c.tlvs.len() as u32 % 7) + ((c.cmd as u32) << 4);
+        match addr {
+            ppp::v2::Addresses::IPv4(a) => {
+                return Builder::with_addresses(vc, proto, (SocketAddr::V4(SocketAddrV4::new(a.source_address, a.source_port)), SocketAddr::V4(SocketAddrV4::new(a.destination_address, a.destination_port))))
+            }
+            ppp::v2::Addresses::IPv6(a) => {
+                return Builder::with_addresses(
+                    vc,
+                    proto,
+                    (SocketAddr::V6(SocketAddrV6::new(a.source_address, a.source_port, 7, scope)), SocketAddr::V6(SocketAddrV6::new(a.destination_address, a.destination_port, 0, scope + (c.proto as u32 % 2)))),
+                )
+            }
+            _ => {}
+        }
+    }
+    Builder::with_addresses(vc, proto, addr)
+}
+
 fn build(c: &Case, values: &[Vec<u8>]) -> std::io::Result<Vec<u8>> {
     let cmd = command_of(c.cmd);
     let proto = bld::protocol_of(c.proto);
@@ -112,7 +135,7 @@ fn build(c: &Case, values: &[Vec<u8>]) -> std::io::Result<Vec<u8>> {
     match c.route % 10 {
         0 => {
             // with_addresses + write_tlv
-            let mut b = Builder::with_addresses(Version::Two | cmd, proto, addr);
+            let mut b = with_addr(c, Version::Two | cmd, proto, addr);
             for (t, v) in c.tlvs.iter().zip(values) {
                 b = match t.named {
                     Some(i) => b.write_tlv(TYPES[i], v)?,
@@ -135,7 +158,7 @@ fn build(c: &Case, values: &[Vec<u8>]) -> std::io::Result<Vec<u8>> {
         }
         2 => {
             // tuples
-            let mut b = Builder::with_addresses(cmd | Version::Two, proto, addr).reserve_capacity(64);
+            let mut b = with_addr(c, cmd | Version::Two, proto, addr).reserve_capacity(64);
             for (t, v) in c.tlvs.iter().zip(values) {
                 b = match t.named {
                     Some(i) => b.write_payload((TYPES[i], v.as_slice()))?,
@@ -170,19 +193,19 @@ fn build(c: &Case, values: &[Vec<u8>]) -> std::io::Result<Vec<u8>> {
                 })
                 .collect();
             if c.route % 10 == 8 && enc::family_code(&c.addr) != 0 {
-                let first = Builder::with_addresses(Version::Two | cmd, proto, addr).write_payloads(items)?.build()?;
+                let first = with_addr(c, Version::Two | cmd, proto, addr).write_payloads(items)?.build()?;
                 let received = match ppp::v2::Header::try_from(first.as_slice()) {
                     Ok(h) => h,
                     Err(_) => return Ok(first), // judged below: the built header must parse
                 };
                 Builder::with_addresses(received.version | received.command, received.protocol, received.addresses).write_payloads(received.tlvs().filter_map(Result::ok))?.build()
             } else {
-                Builder::with_addresses(Version::Two | cmd, proto, addr).write_payloads(items.into_iter().filter(|_| true))?.build()
+                with_addr(c, Version::Two | cmd, proto, addr).write_payloads(items.into_iter().filter(|_| true))?.build()
             }
         }
         9 => {
             // capacity hinted before every single TLV (its own size), after the first write as well
-            let mut b = Builder::with_addresses(Version::Two | cmd, proto, addr);
+            let mut b = with_addr(c, Version::Two | cmd, proto, addr);
             for (t, v) in c.tlvs.iter().zip(values) {
                 b = b.reserve_capacity(3 + v.len());
                 b = match t.named {
@@ -203,7 +226,7 @@ fn build(c: &Case, values: &[Vec<u8>]) -> std::io::Result<Vec<u8>> {
                     None => TypeLengthValue::new(t.kind, v),
                 })
                 .collect();
-            Builder::with_addresses(Version::Two | cmd, proto, addr).write_payloads(items.iter())?.build()
+            with_addr(c, Version::Two | cmd, proto, addr).write_payloads(items.iter())?.build()
         }
         6 => {
             // new + two batches (addresses, then tuples), capacity reserved in between
@@ -214,7 +237,7 @@ fn build(c: &Case, values: &[Vec<u8>]) -> std::io::Result<Vec<u8>> {
             // batch of tuples, explicit (correct) length set up front
             let total: usize = NEED[enc::family_code(&c.addr) as usize] + c.tlvs.iter().map(|t| 3 + t.len).sum::<usize>();
             let items: Vec<(u8, &[u8])> = c.tlvs.iter().zip(values).map(|(t, v)| (t.named.map(|i| u8::from(TYPES[i])).unwrap_or(t.kind), v.as_slice())).collect();
-            Builder::with_addresses(Version::Two | cmd, proto, addr).set_length(total as u16).write_payloads(items)?.build()
+            with_addr(c, Version::Two | cmd, proto, addr).set_length(total as u16).write_payloads(items)?.build()
         }
     }
 }
@@ -409,7 +432,7 @@ pub fn gen_case(t: &mut Tape) -> Case {
         room -= 3 + len;
         tlvs.push(Tlv { named, kind: t.byte(), len, seed: crate::engine::gen_seed(t) });
     }
-    Case { cmd: t.below(2) as u8, proto: t.below(3) as u8, addr, tlvs, route: t.below(10) as u8 }
+    Case { cmd: t.below(2) as u8, proto: t.below(3) as u8, addr, tlvs, route: t.below(20) as u8 }
 }
 
 pub fn run(r: &mut Runner) -> &'static str {
@@ -446,7 +469,7 @@ pub fn run(r: &mut Runner) -> &'static str {
                     if idx % 3 == 0 {
                         tlvs.insert(0, Tlv { named: None, kind: 0x04, len: idx % 5, seed: 1 });
                     }
-                    let c = Case { cmd: (idx % 2) as u8, proto: (idx % 3) as u8, addr: addrs[(idx / 60) % 4].clone(), tlvs, route: ((idx / 6) % 10) as u8 };
+                    let c = Case { cmd: (idx % 2) as u8, proto: (idx % 3) as u8, addr: addrs[(idx / 60) % 4].clone(), tlvs, route: ((idx / 6) % 20) as u8 };
                     if let Err(f) = judge(&c, st) {
                         return Some((c, f));
                     }
